@@ -7,6 +7,7 @@ import Pycoin.Proofs.CurveFacts.Order
 import Pycoin.Proofs.NativeGen
 import Pycoin.Proofs.NativeFacts
 import Pycoin.Proofs.NativeSecp
+import Pycoin.Proofs.NativeSecpGen
 /-!
 C01 — ECDSA: deterministic signatures verify for the signer and for nobody else.  Property theorems; helper
 lemmas in `Proofs/ECDSA.lean` (on top of the C02 refinement of the group law).
@@ -353,6 +354,27 @@ theorem C01_native_libsecp_sign_rfc6979 (hS : LibSecpOk S c) (ok : ECDSAOk c) (b
   obtain ⟨-, -, l3, l4⟩ := lowS_le ok (s := (ki * ((beNat h1 : Int) + d * (x % c.n) % c.n)) % (c.n : Int)) (by omega)
     (Int.emod_lt_of_pos _ hnpos)
   exact ⟨_, _, _, g1, g2, l4, l3⟩
+
+/-- the methods the libsecp256k1 mixin does NOT override, in the class with both mixins
+(`GeneratorWithOptimizations(LibSECP256K1Optimizations, <OpenSSL mixin>, Generator)`: `k * self` and `int * Point` go to
+libsecp256k1, `inverse_mod` and hence `Curve.add` to OpenSSL): **`sign_with_recid` and recovery equal the pure class's**,
+under both contracts -/
+theorem C01_native_libsecp_signWithRecid (hL : LibCryptoOk L c) (hS : LibSecpOk S c) (fits : CurveFits c) (ok : ECDSAOk c)
+    (hp256 : c.p ≤ 2 ^ 256) (bf : Int) (genK : Nat → Int → Int → Except Err Int) (d z : Int)
+    (hk : ∀ k, genK c.n d z = .ok k → k.natAbs ≤ 2 * c.n) :
+    Gen.signWithRecid (Secp.methods S c (Ossl.methods L c)) c bf genK d z = Curve.signWithRecid c bf genK d z := by
+  obtain ⟨den, spec⟩ := hL
+  obtain ⟨denP, denS, specS⟩ := hS
+  exact secpM_signWithRecid_eq spec specS fits ok hp256 bf genK d z hk
+
+theorem C01_native_libsecp_recover (hL : LibCryptoOk L c) (hS : LibSecpOk S c) (fits : CurveFits c) (ok : ECDSAOk c)
+    (hp256 : c.p ≤ 2 ^ 256) (bf z r s : Int) (par : Option Int) (hr0 : 0 ≤ r)
+    (htors : ∀ y, containsXY c r y = true → (c.n : Int) • toPoint c (some (r, y)) = 0) :
+    Gen.possiblePublicPairsForSignature (Secp.methods S c (Ossl.methods L c)) c bf z r s par =
+      Curve.possiblePublicPairsForSignature c bf z r s par := by
+  obtain ⟨den, spec⟩ := hL
+  obtain ⟨denP, denS, specS⟩ := hS
+  exact secpM_recover_eq spec specS fits ok hp256 bf z r s par hr0 htors
 
 end generic
 
